@@ -17,6 +17,9 @@ void h_bitrate_flush(void) {
     vb->vd = vd; vb->internal = vbi; b->bms.vb = vb;
     for (int i = 0; i < PACKETBLOBS; i++) vbi->packetblob[i] = malloc(sizeof(oggpack_buffer));
   }
+  g_fvb = b->bms.vb;
+  __CPROVER_assume(b->bms.choice >= 0 && b->bms.choice < PACKETBLOBS);
+  if (g_fvb) g_fblob = ((vorbis_block_internal *)g_fvb->internal)->packetblob[b->bms.managed ? b->bms.choice : PACKETBLOBS / 2];
   ogg_packet *op = nondet_int() ? malloc(sizeof *op) : NULL;
   vorbis_bitrate_flushpacket(vd, op);
 }
